@@ -219,7 +219,11 @@ C17_GrantsByAdmins == Step =>
        /\ (al'[k] # al[k] /\ E.act = "execute") =>
             Ok /\ E.by = k /\ al'[k].exp = al[k].exp /\ \A d \in Denom : al'[k].c[d] <= al[k].c[d]
 \* an accepted instantiate installs exactly the requested admins and flag, and no grants
-C17_Init == E.act = "reset" /\ Ok =>
+\* (a fixture run starts from storage recorded from the released code)
+FromFixture == "fixture" \in DOMAIN E.cfg
+\* upgrade of a deployed proxy: what the code reads from storage written by the release is what the release reported
+UpgradeKeepsState == E.act = "reset" /\ Ok /\ FromFixture => E.obs = E.cfg.expect
+C17_Init == E.act = "reset" /\ Ok /\ ~FromFixture =>
   \* ("legacy": an admin a deployment of an older release recorded, in a spelling today's validation refuses)
   /\ admins' = SeqSet(E.cfg.admins) \cup (IF "oldadmin" \in DOMAIN E.cfg /\ E.cfg.oldadmin THEN {"legacy"} ELSE {})
   /\ mutable' = E.cfg.mutable
